@@ -390,6 +390,11 @@ func (p *program) parseArgs(args []string) error {
 		return err
 	}
 
+	if p.concurrency < 1 {
+		// 0 would block forever on the first checker, a negative value can't size the semaphore.
+		return fmt.Errorf("-concurrency: %d is not a positive number", p.concurrency)
+	}
+
 	p.packages = p.flagSet.Args()
 	// Like the go/analysis front-end: "a, b" is the list {a, b}.
 	splitValues := func(s string) []string {
